@@ -40,6 +40,8 @@ def expected(op, T):
     if k == 'deg':
         _, _, kind, t, nb = op
         S = T.static(r, t)
+        if isinstance(nb, (tuple, list)) and len(nb) == 2 and nb[0] == 'one':
+            nb = [nb[1]]
         ns = list(S) if nb is None else [n for n in nb if n in S]
         f = {'degree': S.degree, 'in_degree': getattr(S, 'in_degree', None), 'out_degree': getattr(S, 'out_degree', None)}[kind]
         loops = (not d) and any(S.has_edge(n, n) for n in ns)
@@ -116,7 +118,7 @@ def expected(op, T):
 class C02(PropBase):
     id = 'C02'
     obs = {'nbrs', 'hasnode', 'deg', 'inter', 'nodes', 'nnodes', 'size', 'nint', 'density', 'deghist', 'isempty',
-           'nonint', 'nodesnaps', 'has'}
+           'nonint', 'nodesnaps', 'has', 'ids', 'stream'}
     rule = ('state = random history (both classes, both removal modes, self-loops, reciprocal directed pairs, isolated and attributed '
             'nodes forced by the generator); every query entry point (method, _iter and dn.* forms) is called at every instant of '
             'min-1..max+2 and with t omitted, for nbunch in {None, [a,b,unknown], [single]}; the oracle rebuilds the static graph from '
@@ -153,6 +155,8 @@ class C02(PropBase):
         prog.append(('nodes', 0, None))
         prog += has_probes(0, ns + [UNKNOWN], ts)
         prog += query_probes(0, ns, ts, case['directed'])
+        # queries are pure: the first observations again, after every query entry point has been called
+        prog += [('nodes', 0, None), ('ids', 0), ('stream', 0)] + has_probes(0, ns[:2], ts)
         return prog
 
     def oracle(self, case, prog, ri):
@@ -168,8 +172,15 @@ class C02(PropBase):
             elif op[0] == 'add' and r == 'Done':
                 for n in (op[2], op[3]):
                     exp_nodes.setdefault(n, 0)
+        first = {}
         for i, (op, r) in enumerate(zip(prog, ri)):
-            if op[0] in ('new', 'add', 'addnode', 'bulk', 'has', 'ids'):
+            if op[0] in ('nodes', 'ids', 'stream', 'has'):
+                key = repr(op)
+                if key in first and first[key] != r:
+                    fails.append(dict(index=i, op=list(op), what='the same query answered %r before the battery of queries and %r after it' % (first[key], r)))
+                first.setdefault(key, r)
+        for i, (op, r) in enumerate(zip(prog, ri)):
+            if op[0] in ('new', 'add', 'addnode', 'bulk', 'has', 'ids', 'stream'):
                 continue
             if op[0] == 'nodes' and op[2] is None:
                 if r != sorted(exp_nodes.items()):
